@@ -58,6 +58,17 @@ CLAIMED = {
                      'space) against the refusal condition written as a z3 formula; acceptance clauses (new frame, columns, '
                      'dtypes, values, argument untouched, idempotence, warnings).',
                 ref='DESIGN.md 4/C15', note=TRUST + '; only two dtype coercions are modelled'),
+    'C05': dict(text='Bounded symbolic execution of the three stages: whole chain on accepted tables, constructed '
+                     'post-slicing states (bundle shapes), the MSA cropping, metarize() on arbitrary assignments, and the '
+                     'thirty-hit construction that engages the mixture model (every labelling function and score, second '
+                     'group with an arbitrary id value = row-count abstraction). Partition invariants decided per path.',
+                ref='DESIGN.md 4/C05, 2.6', note=TRUST + '; stub contracts for clustering / mixture / LOWESS as listed in the evidence; '
+                'counterexamples that need particular library answers are replayed with those answers scripted'),
+    'C06': dict(text='Bounded symbolic execution of the group merge loop and report-time bases on constructed post-slicing '
+                     'states with symbolic two-bin separations, percentile, exclusion and fall-back threshold, of the whole chain '
+                     'on small tables, and of find_layers/ncomp_from_gmm on the thirty-hit construction (ascending / descending rows, '
+                     'look-back 20/100): reported bases at least the configured separation apart.',
+                ref='DESIGN.md 4/C06', note=TRUST + '; real-number semantics; stable sort on equal time stamps'),
 }
 NA = {}
 
